@@ -9,10 +9,11 @@ PROOF_NOTE = ('Theorems are about the hand-written executable Lean model; the ti
               'the harness/generators/driver, CPython/numpy/pyparsing/re (not modelled).')
 CHECKS = {
  'C06': dict(
-   text='Total correctness of a literal model of munkres.py proved in Lean for every n and every rational matrix (termination with explicit fuel, '
-        'one pair per row, permutation, minimum cost; reuse of a solver object is state-independent); model tied to the code by exact comparison of the returned '
+   text='Total correctness of a literal model of munkres.py proved in Lean for every r x c shape and every rational matrix (termination with explicit fuel; '
+        'the returned list is a matching inside the original matrix with exactly min(r,c) pairs whose cost no matching of that size beats - solver_rect, via zero padding of the squared copy; '
+        'for square matrices additionally one pair per row in row order - solver_square; reuse of a solver object is state-independent); model tied to the code by exact comparison of the returned '
         'pair lists (incl. tie choices) on exhaustive small scopes and seeded random exact matrices, plus a subset-DP oracle on the implementation.',
-   note=PROOF_NOTE + ' Rectangular matrices are covered by the correspondence and DP oracle; the Lean theorem is stated for square matrices (the shape every grader produces). '
+   note=PROOF_NOTE + ' The caller-matrix-unmodified clause is an aliasing fact outside a value-semantics model: it is checked per case by snapshot comparison. '
         'IEEE rounding of non-dyadic float costs is outside the theorem (monitored within 1e-9).',
    technique='Lean 4 proof (invariants + termination measure) of a literal Munkres model; differential correspondence with exact Fractions', design='§6 C06'),
  'C17': dict(
